@@ -254,6 +254,15 @@ def check_r2(case):
     got_a, ref_a = np.asarray(got, dtype=np.float64), np.asarray(ref, dtype=np.float64)
     require(got_a.shape == ref_a.shape, "r2:shape", "r2_score_comparable gives shape %r, r2_score(f(y), g(p)) %r (multioutput=%r, %d outputs)" % (got_a.shape, ref_a.shape, mo, k), facts)
     require(bool(np.all(np.abs(got_a - ref_a) <= 1e-12 * (1 + np.abs(ref_a)))), "r2:differs", "r2_score_comparable=%r, r2_score(f(y), g(p))=%r for tr=%r inv_tr=%r" % (got, ref, tr, inv), facts)
+    # the caller re-uses its target array for the next fold (same object, other values, positive so that every transformation applies):
+    # the score follows the values
+    y[...] = y0[::-1] * 1.5 + 0.25
+    p2 = np.ascontiguousarray(p0[::-1])
+    kw2 = {} if mo == "uniform_average" else dict(multioutput=mo)
+    got2 = np.asarray(_sc.r2_score_comparable(y, p2, tr=_fn(tr), inv_tr=_fn(inv), sample_weight=w, **kw2), dtype=np.float64)
+    ref2 = np.asarray(r2_score(_apply(tr, y), _apply(inv, p2), sample_weight=w, **kw2), dtype=np.float64)
+    require(got2.shape == ref2.shape and bool(np.all(np.abs(got2 - ref2) <= 1e-12 * (1 + np.abs(ref2)))), "r2:differs:same-target-object-refilled",
+            "second call with the same target array holding other values: r2_score_comparable=%r, r2_score(f(y), g(p))=%r" % (got2.tolist(), ref2.tolist()), facts)
     return Outcome(["tr=%s" % tr, "inv_tr=%s" % inv, "weights" if w is not None else "no-weights", "outputs=%d" % k, "multioutput=" + mo], True)
 
 
